@@ -102,5 +102,9 @@ func ToString(err *Error) string {
 }
 
 func space(l int) string {
+	if l < 0 {
+		// a path element with empty source and target id has no padding
+		l = 0
+	}
 	return strings.Repeat(" ", l)
 }
